@@ -686,6 +686,11 @@ impl Sys {
         if self.dead {
             return;
         }
+        // "value flavour": the same histories with requests and inbound messages that carry unusual
+        // but legal content (retain, every property, long topics, empty / 600-byte payloads, several
+        // filters with every option) instead of the plain ones the scenarios name - no property makes
+        // the protocol behaviour depend on what a message contains
+        let ev = if self.params["vals"].as_u64() == Some(1) { self.enrich(ev) } else { ev };
         self.transitions += 1;
         self.events.push(ev.brief());
         self.classes.push(ev.class(&self.m));
@@ -845,6 +850,21 @@ impl Sys {
             }
         }
         self.sync();
+    }
+
+    fn enrich(&self, ev: Ev) -> Ev {
+        let n = self.m.ops.len();
+        match ev {
+            Ev::Start(s) => Ev::Start(enrich_op(s, n)),
+            Ev::StartHeld(s) => Ev::StartHeld(enrich_op(s, n)),
+            Ev::StartW(s) => Ev::StartW(enrich_op(s, n)),
+            Ev::StartWC(s) => Ev::StartWC(enrich_op(s, n)),
+            Ev::Deliver(p) => Ev::Deliver(enrich_in(p)),
+            Ev::DeliverBatch(v) => Ev::DeliverBatch(v.into_iter().map(enrich_in).collect()),
+            Ev::DeliverBytewise(p) => Ev::DeliverBytewise(enrich_in(p)),
+            Ev::DeliverSplit(p, c) => Ev::DeliverSplit(enrich_in(p), c),
+            other => other,
+        }
     }
 
     /// the persistent write block is armed or active
@@ -1017,5 +1037,99 @@ impl World {
             Tid::Op(i) => &mut self.ops[i],
             Tid::Stream(i) => &mut self.streams[i],
         }
+    }
+}
+
+/// see `Sys::apply` ("value flavour"): the n-th operation of an execution gets the n-th decoration
+pub fn enrich_op(spec: OpSpec, n: usize) -> OpSpec {
+    match spec {
+        OpSpec::Publish(mut p) => {
+            match n % 4 {
+                0 => {
+                    p.retain = Some(true);
+                    p.payload = Some(vec![]);
+                }
+                1 => {
+                    p.pfi = Some(true);
+                    p.topic_alias = Some(1);
+                    p.expiry = Some(u32::MAX);
+                    p.correlation = Some(vec![0, 0xff, 0x30, 0x62, 0xe0]);
+                    p.response_topic = Some("rsp/\u{fb}".into());
+                    p.content_type = Some(String::new());
+                    p.user_props = vec![("k".into(), "1".into()), ("".into(), "".into()), ("k".into(), "2".into())];
+                    p.topic = Some(format!("{}/{}", p.topic.unwrap_or_default(), "t".repeat(130)));
+                }
+                2 => {
+                    p.retain = Some(true);
+                    let mut pl = p.payload.unwrap_or_default();
+                    // (bytes that look like fixed headers and length fields)
+                    pl.extend((0..200u32).map(|i| [0x00u8, 0xff, 0x30, 0x82, 0x7f, 0x80][(i % 6) as usize]));
+                    p.payload = Some(pl);
+                    p.topic = Some(format!("$share/\u{fc}/{}", p.topic.unwrap_or_default()));
+                }
+                _ => {}
+            }
+            OpSpec::Publish(p)
+        }
+        OpSpec::Subscribe(mut s) => {
+            if n % 2 == 0 {
+                if let Some(f) = s.filters.first_mut() {
+                    f.qos = Some(2);
+                    f.no_local = Some(true);
+                    f.retain_as_published = Some(true);
+                    f.retain_handling = Some(2);
+                }
+                s.filters.push(FilterSpec {
+                    filter: "second/+/#".into(),
+                    qos: Some(1),
+                    no_local: None,
+                    retain_as_published: None,
+                    retain_handling: Some(1),
+                });
+                s.user_props = vec![("u".into(), "v".into())];
+            }
+            OpSpec::Subscribe(s)
+        }
+        OpSpec::Unsubscribe(mut s) => {
+            if n % 2 == 1 {
+                s.filters.push("second/+/#".into());
+                s.user_props = vec![("u".into(), "v".into()), ("u".into(), "w".into())];
+            }
+            OpSpec::Unsubscribe(s)
+        }
+        other => other,
+    }
+}
+
+/// an inbound PUBLISH is decorated by a function of its own payload, so that a re-delivery of the
+/// same message looks the same
+pub fn enrich_in(p: SPacket) -> SPacket {
+    match p {
+        SPacket::Publish { dup, qos, retain, topic, pid, mut props, mut payload } => {
+            let n = payload.iter().map(|b| *b as usize).sum::<usize>() % 4;
+            let (mut retain, mut topic) = (retain, topic);
+            match n {
+                0 => retain = true,
+                1 => {
+                    // (crosses the 512-byte read step; every property a PUBLISH may carry)
+                    payload.extend(std::iter::repeat(0x30u8).take(600));
+                    props.insert(0, Prop::byte(P_PAYLOAD_FORMAT, 1));
+                    props.push(Prop::u32(P_MESSAGE_EXPIRY, 0));
+                    props.push(Prop::user("k", "1"));
+                    props.push(Prop::str(P_CONTENT_TYPE, "c/t"));
+                    props.push(Prop::str(P_RESPONSE_TOPIC, "r"));
+                    props.push(Prop::user("k", "2"));
+                    props.push(Prop::bin(P_CORRELATION_DATA, &[0, 1, 2]));
+                    props.push(Prop::u16(P_TOPIC_ALIAS, 65535));
+                }
+                2 => {
+                    topic = format!("{}/\u{e9}{}", topic, "x".repeat(200));
+                    retain = true;
+                }
+                _ => {}
+            }
+            SPacket::Publish { dup, qos, retain, topic, pid, props, payload }
+        }
+        other => other,
     }
 }
